@@ -401,8 +401,11 @@ class SchedSuite(SyncSuite):
                 scheds.append({"cap": rng.choice([0, 0, 1, 4, 16, 64]), "delay": rng.choice([0, 0, 5, 50]), "window": rng.choice([0, 2, 10, 50]),
                                "seed": rng.randrange(1 << 30), "procs": rng.choice([1, 2, 4, 16]), "linger": 0 if wide else rng.choice([0, 0, 0, 300]),
                                "readsizes": [rng.choice([0, 1000, 32768, 5000]) for _ in range(rng.randint(1, 3))]})
-            ops.append({"op": "sync", "src": {"kind": "mem", "tree": tree}, "dst": dst, "opt": {"notify": True, "cap": 4, "seed": 1},
-                        "schedules": scheds})
+            opt = {"notify": True, "cap": 4, "seed": 1}
+            if rng.random() < 0.6:
+                # a progress callback that keeps plain (unsynchronised) state: its calls must be serialised by the sender
+                opt["progress"] = True
+            ops.append({"op": "sync", "src": {"kind": "mem", "tree": tree}, "dst": dst, "opt": opt, "schedules": scheds})
         return ops
 
     def prepare_model(self, ops, impl=None):
@@ -426,6 +429,10 @@ class SchedSuite(SyncSuite):
                 ok = False
                 notes.append("schedule %d: transfer failed send=%s recv=%s %s" % (k, r["send"], r["recv"], r.get("recverr") or r.get("senderr")))
                 continue
+            pg = r.get("prog")
+            if op["opt"].get("progress") and pg and (pg[1] != 0 or pg[2] != 1):
+                ok = False
+                notes.append("schedule %d: progress callbacks: %d calls, %d decreasing totals, %d final calls" % (k, pg[0], pg[1], pg[2]))
             if any(r.get("overlaps", [])):
                 ok = False
                 notes.append("schedule %d: concurrent stream calls [S.send,S.recv,R.send,R.recv]=%s" % (k, r["overlaps"]))
